@@ -41,7 +41,14 @@ Inductive out :=
 
 (* s_rep: the reports written INSIDE the checkpoint transaction that ends the
    stage (checkpointClaim of a two-stage success writes two) *)
-Record stage := mkStage { s_outs : list out; s_rep : list (N * N) }.
+(* s_watch: what the resolver goroutine is parked on while the persisted
+   progress is this stage (derived at run time from the reloaded resolver and
+   the chain, not persisted): 0 = an output of the commitment tx, 1 = the
+   output of ITS second-level tx as it is on chain (for zero-fee htlcs not the
+   pre-signed outpoint), 2 = no spend notification.  No transition depends on
+   it; the trace checker compares it with every real wait of the
+   implementation, in particular after a reload. *)
+Record stage := mkStage { s_outs : list out; s_rep : list (N * N); s_watch : N }.
 Record rspec := mkSpec { r_key : N; r_stages : list stage }.
 
 Record scen := mkScen {
